@@ -117,6 +117,12 @@ FLAVOURS = {
     "lto_O2": dict(cc="gcc", cflags=["-O2", "-flto"], noslack=False, ar="gcc-ar"),
     "lto_O3": dict(cc="gcc", cflags=["-O3", "-flto"], noslack=False, ar="gcc-ar"),
     "lto_Os": dict(cc="gcc", cflags=["-Os", "-flto"], noslack=False, ar="gcc-ar"),
+    # the same with clang (LLVM bitcode archives)
+    "clto_O0": dict(cc="clang", cflags=["-O0", "-flto"], noslack=False, ar="llvm-ar"),
+    "clto_O1": dict(cc="clang", cflags=["-O1", "-flto"], noslack=False, ar="llvm-ar"),
+    "clto_O2": dict(cc="clang", cflags=["-O2", "-flto"], noslack=False, ar="llvm-ar"),
+    "clto_O3": dict(cc="clang", cflags=["-O3", "-flto"], noslack=False, ar="llvm-ar"),
+    "clto_Os": dict(cc="clang", cflags=["-Os", "-flto"], noslack=False, ar="llvm-ar"),
     "asan": dict(cc="clang", cflags=["-O1", "-g", "-fno-omit-frame-pointer", "-fsanitize=address,undefined",
                                       "-fno-sanitize-recover=undefined", "-fno-sanitize=alignment"], noslack=False),
 }
